@@ -70,8 +70,11 @@ def run_case(seed, index, props):
     return viol, tags, desc, 'ok'
 
 
+DEFAULT_BUDGET = {'quick': 800, 'thorough': 15000}
+
+
 def run(props, tier, seed, budget=None):
-    return generic_run('critpath', run_case, props, seed, budget or (600 if tier == 'quick' else 15000),
+    return generic_run('critpath', run_case, props, seed, budget or DEFAULT_BUDGET[tier],
                        'seeded random WBS (1-6 tasks, optional hierarchy, links on leaves and summaries, integer or fractional estimates) compared with an exact rational longest-path computation; distinct by input',
                        lambda d: d if len(d['wbs']) > 1 else None)
 
